@@ -25,7 +25,7 @@ func init() {
 	vlib.Register(&vlib.Prop{
 		ID:    "C13",
 		Level: "exploration",
-		Cases: func(tier string) int { return vlib.TierN(tier, 2000, 50000) },
+		Cases: func(tier string) int { return vlib.TierN(tier, 2000, 500000) },
 		Rule: "case = one PoisonQueue instance (constructor without filter, or PoisonQueueWithFilter with one of 7 predicates: all, none, errors.Is sentinel, " +
 			"its negation, errors.As type, hash of the text, not context.Canceled) with a random poison topic, 1..6 messages (random payload, 0..4 random metadata keys, " +
 			"40%: some of the four poison keys pre-set) x 1..4 scripted attempts each (success or one of 21 error shapes: plain, pkg/errors, sentinel, fmt/pkg/deep wrapped, " +
